@@ -337,6 +337,15 @@ func persistField(e *Ent, f Field, ctx *boltz.PersistContext) {
 		}
 		return
 	}
+	if f.Kind == KStr && len(f.Prefix) == 0 && !(v == nil && ctx.IsCreate && e.NilAbsent) {
+		// an optional string through the persist context's pointer setter (nil clears the field)
+		if sv, ok := v.(string); ok {
+			ctx.SetStringP(f.StoreKey(), &sv)
+		} else {
+			ctx.SetStringP(f.StoreKey(), nil)
+		}
+		return
+	}
 	if f.Kind == KStrReq && len(f.Prefix) == 0 {
 		// the persist context's own setter: it asks the checker and the bucket's state itself
 		sv, _ := v.(string)
